@@ -16,6 +16,17 @@ bounds (initial_value only), in every order.  Each replacement is (a) checked co
 bounds of ITS OWN parameter by the direct oracle, with the slack C08 uses (1e-12, or that parameter's declared
 precision / 2, plus 4 ulp of the larger bound), and (b) compared with Model/Reroll.v `gen_vector_desc` evaluated in
 Coq (exact rationals) on the draws of random() that gen_vector consumed (`c06_reroll_run`).
+
+Red-team round 2: the model sees only Transient / Fatal, so the outcome must not depend on what the exception CARRIES.
+`Shaper` builds every scripted exception of the sessions of this module in one of 33 shapes (no arguments, '', int, bool,
+(errno, strerror[, filename]), bytes, None, nan, tuple / list / dict / exception / object / class as only argument, a
+200 kB string, a string full of format characters / quotes / NUL / lone surrogate, swapped and five arguments;
+user-defined subclasses with extra attributes and args == (), with an own __str__, and one that is also a ValueError;
+explicit __cause__ (non-transient and transient), implicit __context__ (raised inside an except block), args replaced
+after construction, add_note, a pre-set traceback, ONE exception object raised at every attempt); every shape x every
+transient class is enumerated (job recovers after 1..4 such failures / five in a row / fatal after them), the other
+serial, mixed-description and parallel / nested sessions draw a shape per attempt.  An exception whose __str__ raises
+is not scripted: the unchanged handler prints the exception, so it would leave the handler with the __str__'s error.
 """
 import contextlib
 import copy
@@ -49,12 +60,15 @@ TRUSTED = [
     "script extreme draws 0, 1 - 2^-53, 2^-53, 0.5); the theorems assume draws in [0, 1)",
     "exception classes are mapped to the model's outcomes by the harness: TimeoutError, RuntimeError and subclasses of RuntimeError "
     "(NotImplementedError, RecursionError) are Transient, every other class (ValueError, ZeroDivisionError, KeyError, ArithmeticError, "
-    "OSError, a BaseException subclass) is Fatal",
+    "OSError, a BaseException subclass) is Fatal; user-defined subclasses of the four transient classes (incl. one that also derives "
+    "from ValueError) are Transient (isinstance, as the except clause reads); what the exception carries (arguments, attributes, "
+    "__cause__ / __context__, notes, traceback, object identity) is not an input of the model and is varied over 33 shapes",
     "parallel runs are compared design by design (the calls of one job are its own attempts); joblib's dispatch, thread scheduling and "
     "the GIL are not modelled (C07)",
 ]
 ASSUMPTIONS = [
-    "the constraint function, data_store.sync_individual and gen_vector do not raise; the objective does not modify the individual",
+    "the constraint function, data_store.sync_individual and gen_vector do not raise; the objective does not modify the individual; "
+    "str() of the raised exception does not raise (the handler prints it)",
     "'inside the bounds' is read as C08 reads it: every coordinate within 1e-12 (no declared precision) or half of its own parameter's "
     "declared precision of its own parameter's [lb, ub] (gen_number rounds to a grid), plus 4 ulp of the larger bound for binary64; "
     "proved in exact rationals (C06_replacement_in_bounds / _in_own_box / C06_stored_vector_in_bounds from C08's gen_number theorem), "
@@ -82,17 +96,140 @@ def raises(pat):
     return pat[0] != "ok"
 
 
-def serial_case(lab, rng, pats, cfg_force=None, again=True):
+# ==============================================================================================================
+# what the exception carries (red-team round 2): the model sees Transient / Fatal only, so nothing may depend on it
+# ==============================================================================================================
+_SUB = {}
+
+
+def subclasses(cls):
+    """user-defined subclasses of a transient class: extra attributes and an __init__ that passes nothing on (args == ()),
+    an own __str__, and a class that is ALSO a ValueError (like io.UnsupportedOperation is OSError and ValueError)"""
+    if cls not in _SUB:
+        class WithAttributes(cls):
+            def __init__(self, host, seconds, **detail):
+                super().__init__()
+                self.host, self.seconds, self.detail, self.code = host, seconds, detail, 3
+
+        class OwnStr(cls):
+            def __str__(self):
+                return "solver gave up: %r" % (self.args[1:],)
+
+        class AlsoValueError(cls, ValueError):
+            pass
+        _SUB[cls] = {"sub_attributes": WithAttributes, "sub_own_str": OwnStr, "sub_also_valueerror": AlsoValueError}
+    return _SUB[cls]
+
+
+TEXT_SPECIAL = "solver {} said: 100%s {0} %d {name} \\ \u2028 \udcff \x00 \" ' done"
+
+# label -> constructor arguments (the class is called with them)
+ARG_SHAPES = {
+    "noargs": (), "empty_str": ("",), "int": (110,), "bool": (True,), "errno_strerror": (110, "Connection timed out"),
+    "errno_strerror_filename": (2, "No such file or directory", "/tmp/solver.out"), "bytes": (b"\xff solver died",),
+    "none": (None,), "nan": (float("nan"),), "tuple": ((1, "x"),), "list": ([3, 4],), "dict": ({"return_code": 3},),
+    "exception": (ValueError("inner"),), "object": (object(),), "class": (KeyError,), "long_str": ("x" * 200000,),
+    "format_characters": (TEXT_SPECIAL,), "int_str_swapped": ("Connection timed out", 110), "five_args": (1, "a", None, b"b", 2.5),
+}
+TRANSIENT_SHAPES = (["text"] + list(ARG_SHAPES) + ["sub_attributes", "sub_own_str", "sub_also_valueerror", "cause", "cause_transient",
+                                                  "context", "args_replaced", "note", "same_object", "traceback"])
+FATAL_SHAPES = ["text", "noargs", "int", "errno_strerror", "bytes", "none", "tuple", "cause", "context"]
+
+
+class Shaper:
+    """chooses what each scripted exception carries; `force` = one shape for every transient exception of the session"""
+
+    def __init__(self, rng, hist, force=None, plain=0.35):
+        self.rng, self.hist, self.force, self.plain = rng, hist, force, plain
+        self.reused = {}
+
+    def pick(self, shapes):
+        if self.force in shapes:
+            return self.force
+        return "text" if self.rng.random() < self.plain else self.rng.choice(shapes)
+
+    def build(self, cls, shape, text):
+        if shape == "text":
+            return cls(text)
+        if shape in ARG_SHAPES:
+            return cls(*ARG_SHAPES[shape])
+        if shape == "sub_attributes":
+            return subclasses(cls)[shape]("solver-7", 30.0, attempt=1)
+        if shape in ("sub_own_str", "sub_also_valueerror"):
+            return subclasses(cls)[shape](*self.rng.choice([(), (text,), (110, "Connection timed out")]))
+        if shape == "same_object":                          # one exception object raised again and again
+            if cls not in self.reused:
+                self.reused[cls] = cls(110, "raised before")
+            return self.reused[cls]
+        e = cls(*self.rng.choice([(), (text,), (110,)]))
+        if shape == "cause":                                # raise ... from an exception of a non-transient class
+            e.__cause__, e.__suppress_context__ = ValueError("the real reason"), True
+        elif shape == "cause_transient":
+            e.__cause__, e.__suppress_context__ = TimeoutError(110, "Connection timed out"), True
+        elif shape == "args_replaced":
+            e.args = (7, None)
+        elif shape == "note":
+            e.add_note("raised by the scripted objective")
+        elif shape == "traceback":
+            try:
+                raise e
+            except BaseException:
+                pass
+        return e                                            # "context": raised inside an except block, see throw()
+
+    def transient(self, code, text):
+        shape = self.pick(TRANSIENT_SHAPES)
+        k = "transient:" + shape
+        self.hist[k] = self.hist.get(k, 0) + 1
+        return self.build(base.TRANSIENT[code], shape, text), TR_NAME[code] + ":" + shape
+
+    def fatal(self, code, text, lab):
+        shape = self.pick(FATAL_SHAPES)
+        k = "fatal:" + shape
+        self.hist[k] = self.hist.get(k, 0) + 1
+        cls = base.FATAL[code][0] or lab.BaseExc
+        if shape == "errno_strerror":           # not 110: OSError(110, ...) constructs a TimeoutError, which is transient
+            return cls(5, "Input/output error"), cls.__name__ + ":" + shape
+        return self.build(cls, shape, text), cls.__name__ + ":" + shape
+
+
+TR_NAME = {k: v.__name__ for k, v in base.TRANSIENT.items()}
+
+
+def throw(e, label):
+    if label.endswith(":context"):
+        try:
+            raise KeyError("looked up while the solver was failing")
+        except KeyError:
+            raise e
+    raise e
+
+
+class Shaped:
+    """mixin for the sessions of this module: the scripted exceptions come from self.shaper (None: as in c05)"""
+    shaper = None
+
+    def init_shapes(self, shaper):
+        self.shaper = shaper
+        self.payloads = []
+
+    def fail(self, group, what, **detail):
+        if getattr(self, "payloads", None):
+            detail = dict(detail, exceptions_raised=list(self.payloads[-15:]))
+        super().fail(group, what, **detail)
+
+
+def serial_case(lab, rng, pats, cfg_force=None, again=True, shaper=None, transient=None, fatal=None):
     """a batch of len(pats) new designs evaluated serially under the concatenated schedule; then evaluated again
-    (the caller caught the exception) with no further faults"""
+    (the caller caught the exception) with no further faults; transient: the code of every transient failure"""
     sched = []
     for p in pats:
-        sched += pattern_codes(rng, p)
+        sched += [transient if (transient and c in base.TRANSIENT) else fatal if (fatal and c in base.FATAL) else c for c in pattern_codes(rng, p)]
         if raises(p):
             break
     cfg = base.rand_cfg(rng, **(cfg_force or {}))
     cfg["schedule"] = sched
-    s = Session06(lab, cfg)
+    s = Session06(lab, cfg, shaper)
     pool = [base.rand_vec(rng, cfg["dim"]) for _ in range(2)]
     ids = [s.mk(base.rand_vec(rng, cfg["dim"], pool)) for _ in pats]
     s.evaluate(ids)
@@ -323,10 +460,28 @@ class RollTap:
         return classmethod(gen_vector)
 
 
-class Session06(RollTap, base.Session):
-    def __init__(self, lab, cfg):
+class Session06(Shaped, RollTap, base.Session):
+    def __init__(self, lab, cfg, shaper=None):
         base.Session.__init__(self, lab, cfg)
         self.init_tap()
+        self.init_shapes(shaper)
+
+    def objective(self, individual):
+        n = len(self.calls)
+        code = self.schedule[n] if n < len(self.schedule) else "ok"
+        if code == "ok" or self.shaper is None:
+            return super().objective(individual)
+        vec = [float(x) for x in individual.vector]
+        if code in base.TRANSIENT:
+            e, label = self.shaper.transient(code, "scripted transient failure at call %d" % n)
+            out = "Transient"
+        else:
+            e, label = self.shaper.fatal(code, "scripted failure at call %d" % n, self.lab)
+            out = "(Fatal %s)" % nl(base.FATAL[code][1])
+        self.calls.append((individual, vec, code, e))
+        self.outs.append(out)
+        self.payloads.append(label)
+        throw(e, label)
 
     def oracle_jobs(self, entry, ids, before, n0, f0, t0, exc):
         k0 = len(self.failures)
@@ -335,10 +490,45 @@ class Session06(RollTap, base.Session):
         self.failures[k0:] = [f for f in self.failures[k0:] if f[1] != "replacement design outside the bounds"]
 
 
-class ParSession06(RollTap, base.ParSession):
-    def __init__(self, lab, cfg, patterns, processes=2, nest=None):
+class ParSession06(Shaped, RollTap, base.ParSession):
+    def __init__(self, lab, cfg, patterns, processes=2, nest=None, shaper=None):
         base.ParSession.__init__(self, lab, cfg, patterns, processes=processes, nest=nest)
         self.init_tap()
+        self.init_shapes(shaper)
+
+    def objective(self, individual):
+        """base.ParSession.objective with the exceptions built by the shaper"""
+        if self.shaper is None:
+            return super().objective(individual)
+        label = None
+        with self.lock:
+            did = self.id_of(individual)
+            att = len(self.dcalls.setdefault(did, []))
+            pat = self.patterns.get(did, [])
+            code = pat[att] if att < len(pat) else "ok"
+            vec = [float(x) for x in individual.vector]
+            exc = None
+            text = "scripted failure of design %d attempt %d" % (did, att)
+            if code in base.TRANSIENT:
+                exc, label = self.shaper.transient(code, text)
+            elif code in base.FATAL:
+                exc, label = self.shaper.fatal(code, text, self.lab)
+            if label is not None:
+                self.payloads.append("design %d: %s" % (did, label))
+            self.dcalls[did].append((vec, code, exc))
+            self.calls.append((individual, vec, code, exc))
+            self.local.did = did
+            self.local.session = self
+            inner = self.nest.pop(did, None) if att == 0 else None
+        if inner is not None:
+            try:
+                self.alg.evaluator.job.evaluate(self.objs[inner])       # recorded by the wrapper of run_parallel
+            except BaseException:                                          # noqa: the nested caller catches everything
+                pass
+            self.local.did = did
+        if exc is not None:
+            throw(exc, label)
+        return self.represent(self.F(vec))
 
 
 def check_rolls(ctx, s, acc, label):
@@ -417,7 +607,7 @@ def check_rolls(ctx, s, acc, label):
             ctx.sample({"parameters": params, "draws": draws, "replacement": case["replacement"]})
 
 
-def mixed_serial(lab, rng, spec, pats, draw_source=None, crit=None):
+def mixed_serial(lab, rng, spec, pats, draw_source=None, crit=None, shaper=None):
     """serial_case on a Problem with the given parameter descriptions, designs starting inside their boxes"""
     sched = []
     for p in pats:
@@ -429,7 +619,7 @@ def mixed_serial(lab, rng, spec, pats, draw_source=None, crit=None):
         cfg["crit"] = list(crit)                 # same criteria = same cached Problem object
     cfg["schedule"] = sched
     cfg["draw_source"] = draw_source
-    s = Session06(lab, cfg)
+    s = Session06(lab, cfg, shaper)
     ids = [s.mk(start_vector(rng, spec), {"vrep": "int"} if rng.random() < 0.3 else None) for _ in pats]
     s.evaluate(ids)
     if raises(pats[-1]) or rng.random() < 0.3:
@@ -437,7 +627,7 @@ def mixed_serial(lab, rng, spec, pats, draw_source=None, crit=None):
     return s.freeze()
 
 
-def interleaved06(lab, rng, ctx, out, hist, acc, nested=False, mixed=True):
+def interleaved06(lab, rng, ctx, out, hist, acc, nested=False, mixed=True, shaper=None):
     """base.interleaved_case for problems with mixed parameter descriptions: one Algorithm.evaluate on distinct new
     designs (plus designs that must be skipped) with max_processes = 2, or serial with nested evaluations started
     from inside the objective; compared design by design; the replacements are checked against their own bounds"""
@@ -450,7 +640,7 @@ def interleaved06(lab, rng, ctx, out, hist, acc, nested=False, mixed=True):
     dim = cfg["dim"]
     vec = (lambda: start_vector(rng, spec)) if mixed else (lambda: base.rand_vec(rng, dim, pool))
     patterns, nest = {}, {}
-    s = ParSession06(lab, cfg, patterns, processes=1 if nested else 2, nest=nest)
+    s = ParSession06(lab, cfg, patterns, processes=1 if nested else 2, nest=nest, shaper=shaper)
     ids = []
     pool = [base.rand_vec(rng, dim) for _ in range(2)]
     for p in pats[:n]:
@@ -480,6 +670,9 @@ def interleaved06(lab, rng, ctx, out, hist, acc, nested=False, mixed=True):
     inp = {"batch": batch, "patterns": {str(k): v for k, v in patterns.items()}, "processes": 1 if nested else 2,
            "nested_evaluations": {str(k): v for k, v in nest_plan.items()}, "parameters": s.bounds,
            "states_before": {str(i): before[i][3] for i in before}}
+
+    if s.payloads:
+        inp["exceptions_raised"] = s.payloads[:20]
 
     def fail(what, **kw):
         if len(ctx.oracle_failures) < 40:
@@ -574,8 +767,9 @@ def run(ctx):
     rng = ctx.rng
     cases, expected, meta = [], [], []
     hist = base.new_hist()
-    hist.update({"patterns": {}})
+    hist.update({"patterns": {}, "exception_payloads": {}})
     pats = design_patterns()
+    shaped = lambda force=None: Shaper(rng, hist["exception_payloads"], force)
     acc = {"gcases": [], "gexpected": [], "gmeta": [],
            "hist": {"replacements": 0, "coordinates": 0, "coordinates_checked": 0, "coordinates_without_bounds": 0,
                     "coordinates_integer_typed_noninteger_bounds": 0, "near_tie_coordinates": 0, "truncated_coordinates": 0,
@@ -599,20 +793,35 @@ def run(ctx):
     for p in pats:
         for rep in range(ctx.pick(2, 6)):
             note([p])
-            add(serial_case(lab, rng, [p]), ("single", p, rep))
+            add(serial_case(lab, rng, [p], shaper=shaped() if rep else None), ("single", p, rep))
         for pos in range(3):
             for rep in range(ctx.pick(1, 4)):
                 others = [("ok", rng.choice([0, 0, 1, 4])) for _ in range(2)]
                 ps = others[:pos] + [p] + others[pos:]
                 note(ps)
-                add(serial_case(lab, rng, ps), ("triple", p, pos, rep, tuple(others)))
+                add(serial_case(lab, rng, ps, shaper=shaped()), ("triple", p, pos, rep, tuple(others)))
     # all pairs (quick: sampled), all triples (thorough) of patterns
     pairs = [(a, b) for a in pats for b in pats]
     if not ctx.thorough:
         pairs = rng.sample(pairs, 90)
     for a, b in pairs:
         note([a, b])
-        add(serial_case(lab, rng, [a, b]), ("pair", a, b))
+        add(serial_case(lab, rng, [a, b], shaper=shaped()), ("pair", a, b))
+    # what the exception carries: every shape of payload with every transient class, all failures of the job of that shape: the job
+    # recovers after 1..4 of them / ends on a non-transient exception after them / fails five times
+    for shape in TRANSIENT_SHAPES:
+        for k, code in enumerate(TR):
+            ps = [[("ok", 1 + (k + j) % 4)] for j in range(ctx.pick(1, 4))]
+            more = [[("ok", 0), ("five",)], [("fatal", 1 + k % 4), ("ok", 1)], [("ok", 2), ("ok", 0), ("ok", 3)]]
+            ps += more if ctx.thorough else [more[(k + len(shape)) % 3]]
+            for j, pp in enumerate(ps):
+                note(pp)
+                add(serial_case(lab, rng, pp, shaper=shaped(shape), transient=code), ("payload", shape, code, j, tuple(pp)))
+    for shape in FATAL_SHAPES:
+        for code in FA:
+            pp = [("fatal", rng.choice([0, 0, 1, 3]))]
+            note(pp)
+            add(serial_case(lab, rng, pp, shaper=shaped(shape), fatal=code), ("payload_fatal", shape, code))
     if ctx.thorough:
         for a in pats:
             for b in pats:
@@ -620,7 +829,7 @@ def run(ctx):
                     if raises(a) and (b, c) != (pats[0], pats[0]):
                         continue                     # the batch stops at the first design: one representative is enough
                     note([a, b, c])
-                    add(serial_case(lab, rng, [a, b, c], again=rng.random() < 0.5), ("triple_all", a, b, c))
+                    add(serial_case(lab, rng, [a, b, c], again=rng.random() < 0.5, shaper=shaped()), ("triple_all", a, b, c))
     # ---- mixed parameter descriptions: the replacement design against the bounds of its own parameters
     rerolling = [p for p in pats if p != ("ok", 0) and p != ("fatal", 0)]
     def extreme():
@@ -632,7 +841,7 @@ def run(ctx):
         src = extreme if (not truncating and rng.random() < 0.15) else None
         acc["hist"]["mixed_description_sessions"] += 1
         note(ps)
-        s = mixed_serial(lab, rng, spec, ps, src)
+        s = mixed_serial(lab, rng, spec, ps, src, shaper=shaped() if rng.random() < 0.5 else None)
         add(s, key)
         if rng.random() < 0.3:                   # the same long-lived Problem / Algorithm / Job in a second history
             ps2 = [rng.choice(rerolling)]
@@ -680,7 +889,7 @@ def run(ctx):
         base.interleaved_case(lab, rng, ctx, par, hist, "C06", nested=True)
     # both again on problems with mixed parameter descriptions (and with the replacement recorded draw by draw)
     for k in range(ctx.pick(40, 300)):
-        interleaved06(lab, rng, ctx, par, hist, acc, nested=k % 3 == 2, mixed=k % 8 != 7)
+        interleaved06(lab, rng, ctx, par, hist, acc, nested=k % 3 == 2, mixed=k % 8 != 7, shaper=shaped() if k % 4 else None)
     lab.drop_specs()
     for c, e, m in par:
         cases.append(c)
@@ -696,7 +905,10 @@ def run(ctx):
     ctx.rule = ("fault schedules over {ok, TimeoutError, RuntimeError, NotImplementedError, RecursionError | ValueError, ZeroDivisionError, "
                 "KeyError, ArithmeticError, OSError, BaseException subclass}: each of the 11 job patterns (success / fatal after 0..4 "
                 "transient failures, five in a row) alone and as first / middle / last design of a batch of three, pairs of patterns "
-                "(thorough: all pairs and triples), each followed by a second evaluate of the same batch; random histories with fault rate "
+                "(thorough: all pairs and triples), each followed by a second evaluate of the same batch; every shape of exception payload (33: no / int / (errno, strerror) / "
+                "bytes / None / container / exception arguments, format characters, subclasses with attributes, __cause__ / __context__, "
+                "one object raised repeatedly ...) x every transient class under jobs that recover after 1..4 failures, fail five times or "
+                "end on a fatal exception, and a random shape per attempt elsewhere; random histories with fault rate "
                 "0.2..0.7 incl. scalar queries and sweeps; 2-worker parallel runs compared design by design; problems with MIXED parameter "
                 "descriptions (each of the 90 kinds {int, float, negative, tiny, huge bounds, no bounds} x {no precision, 1, 0.5, 0.05, "
                 "1e-3} x {no parameter_type, real, integer} in first and in second position next to a kind that differs in what it "
